@@ -23,9 +23,10 @@ type SynOpts struct {
 	NoSplit    bool     // every nonterminal is defined by one rule
 	RRTwin     bool     // add a nonterminal with the same body as an existing alternative (reduce/reduce conflict), declared at a random place
 	SplitMore  bool     // split definitions more often
+	Large      bool     // several family trees under one start symbol: dozens of states and productions
 }
 
-var ntNames = []string{"A", "B", "C", "D", "E", "F", "G", "H"}
+var ntNames = []string{"A", "B", "C", "D", "E", "F", "G", "H", "I", "J", "K", "L", "M", "N", "O", "P"}
 var tokNames = []string{"ta", "tb", "tc", "td", "te", "tf", "tg", "th"}
 var litNames = []string{"+", "*", "(", ")", ",", ";", "x", "if", "=", "é"}
 
@@ -240,7 +241,23 @@ func SynGrammar(o SynOpts) *rapid.Generator[*gr.Grammar] {
 		if stratum == 0 {
 			stratum = rapid.SampledFrom([]int{1, 1, 1, 2, 3}).Draw(t, "stratum")
 		}
+		if o.Large {
+			b.maxNT = len(ntNames)
+			name, pi := b.newNT()
+			_ = name
+			n := rapid.IntRange(2, 4).Draw(t, "largeAlts")
+			for k := 0; k < n; k++ {
+				x := b.family(4)
+				a := gr.Alt_{Syms: []gr.Sym{b.term(), x}}
+				if rapid.Bool().Draw(t, "largeTail") {
+					a.Syms = append(a.Syms, b.term())
+				}
+				b.prods[pi].Alts = append(b.prods[pi].Alts, a)
+			}
+			stratum = -1
+		}
 		switch stratum {
+		case -1:
 		case 1, 3:
 			// the first production must be a nonterminal: force one
 			b.family(3)
